@@ -513,7 +513,9 @@ func checkC13(c *Ctx, r *Report) {
 	lockRule(c, r6, lockSpec{Pkg: idP, Type: "idService", Mutex: "connsMu", Guarded: []string{"conns"},
 		Exempt: map[string]string{idP + ".NewIDService": "constructor: not yet shared"}})
 	if f := r6.need(nn("Disconnected")); f != nil {
-		dels := findInstrs(f, func(in ssa.Instruction) bool { return isCallTo(in, "builtin.delete") && isFieldWrite(in, idP+".idService.conns") })
+		dels := findInstrs(f, func(in ssa.Instruction) bool {
+			return isCallTo(in, "builtin.delete") && isFieldWrite(in, idP+".idService.conns")
+		})
 		w, _ := (&Cut{Fn: f, Target: isRet, Sep: inSet(dels)}).Run(c)
 		r6.Check(len(dels) == 1 && w == "", nn("Disconnected")+": stops tracking the connection on every path", f.Pos(), 1, "", "per-connection state grows without bound", w)
 	}
